@@ -233,7 +233,20 @@ func attributeFlowRule(P *Program, R *Report) {
 			if !isIA {
 				return
 			}
-			if _, isMake := ia.X.(*ssa.MakeSlice); !isMake {
+			switch x := ia.X.(type) {
+			case *ssa.MakeSlice:
+			case *ssa.Call:
+				// slices.Repeat([]*big.Int{zero}, n): every slot starts as the zero constant
+				if calleeName(x) != "slices.Repeat" {
+					return
+				}
+				if seq, okS := seqOf(x.Call.Args[0]); okS && len(seq) == 1 && seq[0].D == "call:big.NewInt(0)" {
+					n++
+				} else {
+					ok = false
+					notes = append(notes, "slots initialised from "+desc(x.Call.Args[0]))
+				}
+			default:
 				return
 			}
 			n++
